@@ -44,7 +44,7 @@ def main():
         pats = [x for x in a.only.split(",") if x]
         hs = [h for h in hs if any(x in h.name for x in pats)]
     known, fixed = vf.load_known_findings()
-    known_keys = {k for k, (p, t) in known.items() if pid in p.split(',')}
+    known_keys = set(known.keys())     # a finding is keyed by harness family; every property that runs that harness excludes it
     # probes only run for findings that are listed
     hs = [h for h in hs if h.probe_for is None or h.probe_for in known_keys]
 
